@@ -54,10 +54,11 @@ def s_link(draw, min_slots=2, max_slots=200, kinds=("random", "random", "prbs7",
             "r": draw(st.floats(0.1, 1.0)), "R_load": draw(st.floats(10, 1000)), "bw": draw(st.floats(0, 1)), "elem": elem,
             "disp": draw(st.floats(-1, 1)), "L": draw(st.floats(1, 100)), "alpha": draw(st.floats(0, 0.3)),
             "pdmode": draw(st.sampled_from(["ase-only", "thermal-only"])), "drive_bias_in_dac": draw(st.booleans()),
-            "gvN": draw(st.sampled_from([None, None, "match", "other"])), "drive": draw(st.sampled_from(["unipolar", "negative", "pushpull"]))}      # slot count configured in gv: none / that of the record / another one
+            "gvN": draw(st.sampled_from([None, None, "match", "other"])), "drive": draw(st.sampled_from(["unipolar", "negative", "pushpull"])),
+            "chirp": draw(st.one_of(st.just(0.0), st.just(0.0), st.floats(-2, 2)))}      # chirp factor of the Gaussian pulses (DAC's c)      # slot count configured in gv: none / that of the record / another one
 
 
-def run_link(c, slots, carrier=None, pol=None, keep=None):
+def run_link(c, slots, carrier=None, pol=None, keep=None, chirp_ok=False):
     """slots: 0/1 array of transmitted slot values; returns the PD output (electrical_signal).
     `carrier`: re-use this CW carrier object (a second transmission from the same laser); `keep`: dict receiving the carrier used."""
     sps, R = c["sps"], c["R"]
@@ -69,14 +70,16 @@ def run_link(c, slots, carrier=None, pol=None, keep=None):
     Vpi = c["Vpi"]
     kw = {}
     drive = c.get("drive") or ("negative" if c["drive_bias_in_dac"] else "unipolar")
+    # (chirped Gaussian pulses only for the sample-and-threshold receiver; the eye-based routines are claimed for the plain shapes)
+    dkw = {"c": c["chirp"]} if chirp_ok and c["shape"] == "gaussian" and c.get("chirp") else {}
     if drive == "negative":
-        v = lib(D.DAC, slots, -Vpi, Vpi, c["shape"])      # bit 1 -> 0 V (maximum transmission), bit 0 -> -Vpi
+        v = lib(D.DAC, slots, -Vpi, Vpi, c["shape"], **dkw)      # bit 1 -> 0 V (maximum transmission), bit 0 -> -Vpi
         mz_bias = 0.0
     elif drive == "pushpull":
-        v = lib(D.DAC, slots, -Vpi / 2, Vpi, c["shape"])  # bit 1 -> +Vpi/2, bit 0 -> -Vpi/2 around a bias of -Vpi/2
+        v = lib(D.DAC, slots, -Vpi / 2, Vpi, c["shape"], **dkw)  # bit 1 -> +Vpi/2, bit 0 -> -Vpi/2 around a bias of -Vpi/2
         mz_bias = -Vpi / 2
     else:
-        v = lib(D.DAC, slots, 0.0, Vpi, c["shape"])
+        v = lib(D.DAC, slots, 0.0, Vpi, c["shape"], **dkw)
         mz_bias = -Vpi
     N = len(v)
     t = np.arange(N) / fs
@@ -129,7 +132,7 @@ def e_manual(c):
     reset()
     bits = pattern(c["kind"], c["n"], c["seed"], c["p1"])
     keep = {}
-    y = run_link(c, bits, keep=keep)
+    y = run_link(c, bits, keep=keep, chirp_ok=True)
     s = lib(D.SAMPLER, y, c["sps"] // 2)
     v = (s.signal + (s.noise if s.noise is not None else 0)).real
     thr = (v.max() + v.min()) / 2
@@ -138,7 +141,7 @@ def e_manual(c):
     if c["npol"] == 2 and c["both_rows"]:
         # a second transmission from the SAME carrier object on the other polarisation (the first one must not have consumed it)
         bits2 = bits[::-1].copy()
-        y2 = run_link(c, bits2, carrier=keep["cw"], pol=("y" if c["pol"] == "x" else "x"))
+        y2 = run_link(c, bits2, carrier=keep["cw"], pol=("y" if c["pol"] == "x" else "x"), chirp_ok=True)
         v2 = lib(D.SAMPLER, y2, c["sps"] // 2).signal.real
         if v2.max() > v2.min():
             rx2_ = (v2 > (v2.max() + v2.min()) / 2).astype(int)
